@@ -15,6 +15,8 @@ handler goroutine survives a panic is a fact regenerated from the source
 *within a deadline* is checked on the implementation only.
 -/
 import Verif.Lemmas.Sync
+import Verif.Lemmas.SyncChain
+import Verif.Props.C01
 import Verif.Extracted.SyncerFacts
 
 namespace Verif.C11
@@ -207,6 +209,122 @@ theorem invalid_headers_only_drop (U : Univ) (cfg : Cfg) (n : Node) (base : Nat)
   rw [hh]
   simp only [headerPhase, hbad]
   simp
+
+/-! ### the same gates in front of the chain-manager model M2 (`Model/Chain.lean`, C01)
+
+`SyncC.stepC` feeds `Chain.addBlocks` below the require height and `Chain.addValidatedV2` at/above
+it.  `Chain.Inv` (C01) is **not** an invariant of that system under an arbitrary peer — see
+`chain_inv_not_preserved` — and not even between two requests of an honest round: a request below
+the require height that is not heavier is stored without being applied, and the next one is
+stored *with* supplements on top of it.  The invariant that does hold for every peer behaviour is
+`SyncC.InvW` (supplement ⇒ valid *relative to the ancestry*; best chain fully valid). -/
+
+section OnChainModel
+open Verif.SyncC
+
+/-- **any peer behaviour, on the chain-manager model**: the weak invariant is preserved by every
+list of events (sync rounds with arbitrary answers, single requests with arbitrary request data
+in any order, relays), from any state satisfying it — in particular from `Chain.Mgr.init`. -/
+theorem chain_syncer_preserves_invW (U : Univ) (nv : NoVariants U) (hU : WFH (toChain U)) (hb : HashBindsC U)
+    (cfg : Cfg) (m : Chain.Mgr) (h : InvW (toChain U) m) (evs : List Ev) :
+    InvW (toChain U) (runC U cfg m evs) :=
+  (runC_spec nv hU hb cfg evs m h).1
+
+/-- … hence the best chain of the chain-manager model is parent-linked from genesis, every block
+on it is stored with body and supplement, and it and all its ancestors passed `ValidateBlock` -/
+theorem chain_best_always_valid (U : Univ) (nv : NoVariants U) (hU : WFH (toChain U)) (hb : HashBindsC U)
+    (cfg : Cfg) (evs : List Ev) :
+    Chain.Chain (toChain U) (runC U cfg Chain.Mgr.init evs).best ∧
+    ∀ i ∈ (runC U cfg Chain.Mgr.init evs).best, i ≠ 0 → (U i).body = true := by
+  have h := chain_syncer_preserves_invW U nv hU hb cfg _ (invW_init hU) evs
+  exact ⟨h.chain, fun i hi hne => (h.bestvalid i hi).body hne⟩
+
+/-- … and the total work of its tip never decreases -/
+theorem chain_tip_work_mono (U : Univ) (nv : NoVariants U) (hU : WFH (toChain U)) (hb : HashBindsC U)
+    (cfg : Cfg) (m : Chain.Mgr) (h : InvW (toChain U) m) (evs : List Ev) :
+    (U m.tip).work ≤ (U (runC U cfg m evs).tip).work :=
+  (runC_spec nv hU hb cfg evs m h).2
+
+/-- **the bridge to C01's `PreValidated`**: the conclusion of `gate_v2_sound` gives the contract
+`C01.inv_addValidatedV2` asks for, *provided* (1) the manager satisfies the strong invariant,
+(2) the request's base — the checkpoint block — has been **applied** by this manager (true for
+the first request of a round, whose base is on the best chain; true for a later request iff the
+previous one was applied or itself went through `AddValidatedV2Blocks`; false after a request
+below the require height that was stored without being heavier), and (3) the delivered blocks
+pass `ValidateOrphan` and are v2 blocks.  (3) is not established by the gate: `ValidateBlock` on
+the derived state implies `ValidateOrphan` only if that state is genuine, and "is a v2 block" is
+tested by the manager itself (`notV2`).  That no block is from the future *is* established
+(repaired: the checkpoint path applied no future-timestamp policy). -/
+theorem gate_v2_gives_PreValidated (U : Univ) (nv : NoVariants U) (hU : WFH (toChain U)) (hb : HashBindsC U)
+    (cfg : Cfg) (q : Req) (r : BResp) (bs : List Nat) (m : Chain.Mgr)
+    (hg : gateBatch U cfg q r = .ok bs true)
+    (hI : Chain.Inv (toChain U) m)
+    (hbase : m.recs q.base = some ⟨true, true⟩)
+    (hextra : ∀ b ∈ bs, (U b).orphan = true ∧ (U b).v2 = true) :
+    Chain.PreValidated (toChain U) m bs := by
+  obtain ⟨hl, hc⟩ := gate_v2_contract' nv hU hb cfg q r bs hg
+  have hvb : VT (toChain U) q.base := inv_applied_VT hI _ _ rfl hbase
+  obtain ⟨_, cp, _, _, _, _, _, _, _, _, _, hvc⟩ := gateBatch_ok_true cfg q r bs hg
+  constructor
+  · intro b hbm
+    obtain ⟨e1, e3⟩ := hextra b hbm
+    exact ⟨e1, linked_all_body bs q.base hvb hl hc b hbm, validateChain_nofuture cp.genuine bs cp.blk hvc b hbm, e3⟩
+  · intro b0 rest e
+    subst e
+    have hp : Chain.par (toChain U) b0 = q.base := hl.1
+    exact ⟨hp ▸ hl, hp ▸ hbase⟩
+
+/-- with that contract the strong invariant of C01 is preserved by one request reaching the
+manager (`Chain.addBlocks` below the require height: `addBlocks_spec`; `Chain.addValidatedV2`
+at/above it: `C01.inv_addValidatedV2`) -/
+theorem chain_inv_strong_step (U : Univ) (hW : Chain.WFU (toChain U)) (cfg : Cfg) (m : Chain.Mgr)
+    (q : Req) (r : BResp) (hI : Chain.Inv (toChain U) m)
+    (hpre : ∀ bs, gateBatch U cfg q r = .ok bs true → Chain.PreValidated (toChain U) m bs) :
+    Chain.Inv (toChain U) (stepBatchC U cfg m q r).1 := by
+  unfold stepBatchC
+  split
+  · exact hI
+  · exact hI
+  · rename_i bs pre hg
+    cases pre
+    · exact (Chain.addBlocks_spec hW hI bs).1
+    · exact (Verif.C01.inv_addValidatedV2 hW hI bs bs.length (hpre bs hg)).1
+
+/-- the universe of the exception: genesis 0; the victim's block 1 (work 30); the peer's block 2
+(work 20) is header-valid but its body is not (its commitment commits to a made-up state); block
+3 (work 40) is "valid" on that made-up state only -/
+def fakeU : Univ := fun i =>
+  match i with
+  | 0 => ⟨0, 0, 0, 10, 10, true, true, true, true, false, false⟩
+  | 1 => ⟨0, 1, 1, 30, 10, true, true, true, true, true, false⟩
+  | 2 => ⟨0, 2, 1, 20, 10, true, true, true, false, true, false⟩
+  | 3 => ⟨2, 3, 2, 40, 10, true, true, true, false, true, false⟩
+  | _ => ⟨0, 0, 0, 0, 0, false, false, false, false, false, false⟩
+
+/-- the two requests of the exceptional round (require height 1): blocks `[2]` below the require
+height (stored, not heavier than the victim's tip 1, never validated), then `[3]` through the
+checkpoint path with block 2 as checkpoint and a made-up state that its commitment matches -/
+def fakeRound : List Ev :=
+  [.batch ⟨0, 0, [1]⟩ ⟨none, some [1]⟩,
+   .batch ⟨0, 0, [2]⟩ ⟨none, some [2]⟩,
+   .batch ⟨2, 1, [3]⟩ ⟨some ⟨2, true, true, true, false⟩, some [3]⟩]
+
+/-- **`Chain.Inv` is not preserved by the syncer under a Byzantine peer** (nor is it by the real
+code, which this model transcribes): after the exceptional round block 3 is stored with a
+supplement on top of block 2, which has none (`suppclosed`), and never passed `ValidateBlock`
+(`valid`).  The reorg it triggers fails at block 2 and is rolled back: the best chain is untouched
+and `InvW` holds (`chain_syncer_preserves_invW`). -/
+theorem chain_inv_not_preserved :
+    ¬ Chain.Inv (toChain fakeU) (runC fakeU ⟨1, 100⟩ Chain.Mgr.init fakeRound) ∧
+    (runC fakeU ⟨1, 100⟩ Chain.Mgr.init fakeRound).best = [1, 0] := by
+  refine ⟨?_, by decide⟩
+  intro h
+  have h3 : (runC fakeU ⟨1, 100⟩ Chain.Mgr.init fakeRound).recs 3 = some ⟨true, true⟩ := by decide
+  have := h.s.valid 3 (by decide) h3
+  revert this
+  decide
+
+end OnChainModel
 
 /-! ### facts regenerated from `/repo/syncer/peer.go` on every run (`harness/srcfacts/syncer.go`) -/
 
